@@ -1,6 +1,6 @@
 #!/usr/bin/env python3
 import os, sys
-txt = open('/verif/seeded/matrix.txt').read()
+txt = open(sys.argv[1] if len(sys.argv) > 1 else '/verif/seeded/matrix.txt').read()
 cur = None; res = {}
 for l in txt.splitlines():
     if l.startswith('== '): cur = l[3:]; res[cur] = {'alarm': [], 'err': []}
